@@ -1059,11 +1059,30 @@ func linForm(v ssa.Value, pureGetters map[*types.Func]bool, depth int) LinForm {
 		}
 		return l.Sub(LinForm{0, map[string]int64{}}.Sub(r))
 	}
+	if bo, ok := v.(*ssa.BinOp); ok && depth < 30 && bo.Op == token.MUL {
+		// scaling by a constant
+		l, r := linForm(bo.X, pureGetters, depth+1), linForm(bo.Y, pureGetters, depth+1)
+		scale := func(f LinForm, k int64) LinForm {
+			out := LinForm{f.C * k, map[string]int64{}}
+			for s, c := range f.T {
+				if c*k != 0 {
+					out.T[s] = c * k
+				}
+			}
+			return out
+		}
+		if len(l.T) == 0 {
+			return scale(r, l.C)
+		}
+		if len(r.T) == 0 {
+			return scale(l, r.C)
+		}
+	}
 	return LinForm{0, map[string]int64{symKey(v, pureGetters, depth): 1}}
 }
 
 func symKey(v ssa.Value, pureGetters map[*types.Func]bool, depth int) string {
-	v = stripConv(v)
+	v = stripConv(resolveCell(stripConv(v)))
 	if c, ok := v.(*ssa.Call); ok && depth < 30 {
 		if o := CalleeObj(c); o != nil && pureGetters[o] {
 			var as []string
